@@ -8,3 +8,11 @@ claim('C04', 'ast + CFG must-pass-through, provenance of trie keys and handler n
       'raises; detach deletes; reply sends only on the not-expired edge and returns a truthful bool. Does not decide pygtrie '
       'semantics or timing values.',
       'Python semantics as modelled by the CFG builder; pygtrie longest_prefix; user handlers do not raise or re-enter')
+
+claim('C05', 'finite-domain verdict evaluation over the CFG (accepting-set), reaching definitions of the verdict, must-pass-through',
+      'For both front-ends decides, on every path: Data/handler delivery is reachable exactly for verdicts {PASS, ALLOW_BYPASS} '
+      '(v2, all 5 ValidResult members enumerated) or a truthy verdict (v1); no accepting constant reaches the test where '
+      'validation is required; missing validator => FAIL; validation-required condition == (ApplicationParameters or SignatureInfo '
+      'present) by truth table; parameters-digest gate dominates the handler task; rejected Data ends in ValidationFailure carrying '
+      'packet and verdict; completion re-guarded after the validator await. Does not decide validator latency vs deadline values.',
+      'validators are user callbacks; plain-Enum truthiness; CFG model of Python')
